@@ -239,6 +239,41 @@ theorem empty_noop (a : CtorArgs) (specs : List FieldSpec) (t : Tbl) (ha : a.fie
   simp only [hp, bind, Except.bind]
   rfl
 
+/-- Re-formatting with the table's own column descriptions. In every reachable state — in particular after a
+print, with limits and break-by columns — assign to `table.fmt` a columns-only string made of some of the column
+descriptions `str(table.fmt)` reports now (`idxs`: any of them dropped, moved, repeated; verbatim, or `plain`:
+without the `(width)` suffix). It is accepted; the new columns are exactly the picked ones, and NONE of them has
+a negotiated width — a description repeated word for word inherits nothing from the column it was copied from —;
+fields, records, header, footer and limits stay, the skipped-lines flag is forgotten. The new state is reachable,
+so `same_rendering_setter`, `same_rendering_ctor` and `format_after_print` hold for it as for any other. -/
+theorem reformat_own_columns (a : CtorArgs) (specs : List FieldSpec) (t : Tbl) (ha : a.fields = some specs)
+    (hn : ∀ sp ∈ specs, NameOk sp.name) (hr : Reach a t) (hmod : CustomModsOk t.fmt.cols)
+    (idxs : List Nat) (plain : Bool) (hne : pickCols t.fmt.cols idxs ≠ []) :
+    ∃ t1, applySetter t (subFmtStr t.fmt idxs plain) = .ok t1 ∧ Reach a t1 ∧
+      t1.fmt.cols = (pickCols t.fmt.cols idxs).map Col.reset ∧ (∀ c ∈ t1.fmt.cols, c.width = Option.none) ∧
+      t1.fmt.fields = t.fmt.fields ∧ t1.fmt.limF = t.fmt.limF ∧ t1.fmt.limL = t.fmt.limL ∧
+      t1.fmt.anySkipped = Option.none ∧ t1.records = t.records ∧ t1.header = t.header ∧ t1.footer = t.footer := by
+  have hi := reach_inv a specs ha t hr
+  have hnm := inv_colNameOk hi hn hmod
+  have h := applySetter_subFmtStr t idxs plain (fun c hc => ⟨hnm c hc, hi.colsOk c hc⟩) hne
+  refine ⟨_, h, Reach.set a t _ _ hr h, rfl, ?_, rfl, rfl, rfl, rfl, rfl, rfl, rfl⟩
+  intro c hc
+  simp only [List.mem_map] at hc
+  obtain ⟨c0, _, rfl⟩ := hc
+  rfl
+
+/-- the picked columns are columns of the table, in the order asked for (`i` taken modulo their number) -/
+theorem reformat_own_columns_pick (cols : List Col) (idxs : List Nat) (hne : cols ≠ []) :
+    (pickCols cols idxs).length = idxs.length ∧ ∀ c ∈ pickCols cols idxs, c ∈ cols := by
+  refine ⟨?_, fun c hc => mem_pickCols hc⟩
+  have hpos : 0 < cols.length := List.length_pos_iff.mpr hne
+  induction idxs with
+  | nil => rfl
+  | cons i is ih =>
+    have hlt : i % cols.length < cols.length := Nat.mod_lt _ hpos
+    simp only [pickCols, List.filterMap_cons, List.getElem?_eq_getElem hlt, List.length_cons] at ih ⊢
+    rw [ih]
+
 /-- Field-less tables, what holds. A table built without `fields` and without an explicit column
 list (columns `col_1 …`, or the dummy column of an empty table) is exactly the table built with
 those automatic names passed as `fields`; the names are expressible; so every theorem above applies
@@ -342,5 +377,24 @@ example : NameOk "qty!=0".toList ∧ NameOk "f(x)-1".toList :=
 
 example : parseCol "qty!=0!:3-9".toList
     = .ok ⟨"qty!=0".toList, Option.none, true, Option.none, .range 3 9⟩ := by decide +kernel
+
+/-! The own-columns re-format on a printed table with limits and a break-by column: `id:2-9,grade!:1-20,name:1-30;2:2`
+over seven records, printed (`name` fitted to 4), then `table.fmt = "name:1-30(4)"` (its own third description):
+the break lines go, the long sixth record comes into view, the column is fitted anew (18). -/
+
+private def subArgs : CtorArgs :=
+  { records := [(1, 10, "aa"), (2, 10, "bbbb"), (3, 20, "c"), (4, 20, "dd"), (5, 30, "e"),
+                (6, 30, "a much longer name"), (7, 40, "g")].map fun (i, g, n) =>
+                  [Val.int (i : Nat), Val.int (g : Nat), Val.str n.toList],
+    fields := some [⟨"id".toList, .dflt, .none, Option.none⟩, ⟨"grade".toList, .dflt, .none, Option.none⟩,
+                    ⟨"name".toList, .dflt, .none, Option.none⟩],
+    fmt := some "id:2-9,grade!:1-20,name:1-30;2:2".toList, limits := Option.none, header := Option.none,
+    footer := Option.none, skip := Option.none }
+
+example : (mkTable subArgs >>= render).map (fun x => String.ofList (subFmtStr x.1.fmt [2] false))
+    = .ok "name:1-30(4)" := by decide +kernel
+
+example : (mkTable subArgs >>= render >>= fun x => applySetter x.1 (subFmtStr x.1.fmt [2] false) >>= render).map
+    (fun y => String.ofList (fmtToStr y.1.fmt)) = .ok "name:1-30(18);2:2" := by decide +kernel
 
 end C13
